@@ -29,14 +29,14 @@ CHECKS = {
     "C01": {
         "engine": "E1+E4",
         "technique": "abstract interpretation of every Unit(...) construction site in a three-component group domain (prefix / factors / dimension) + CFG dominance of exactness guards over floor divisions",
-        "level_text": "Unit.__new__ ignores the dimension argument for an interned key, so the history property reduces to: every construction site passes the dimension that is the homomorphic image of the factors it passes. All 10 sites are enumerated from the resolved call graph and decided for all operands at once; the three root() guards are decided on the CFG (floor division or divmod); the dimension a serialised unit is rebuilt with must be decoded from the encoded exponents on every path (R01.7); re-constructing an interned unit must leave its fields alone (R01.8, pruned CFG of __init__). Every obligation is discharged on the repaired tree (two fix: commits).",
+        "level_text": "Unit.__new__ ignores the dimension argument for an interned key, so the history property reduces to: every construction site passes the dimension that is the homomorphic image of the factors it passes. All 10 sites are enumerated from the resolved call graph and decided for all operands at once; the three root() guards are decided on the CFG (floor division or divmod); the dimension a serialised unit is rebuilt with must be decoded from the encoded exponents on every path (R01.7); re-constructing an interned unit must leave its fields alone (R01.8, pruned CFG of __init__); only the core module calls the interning constructor (R01.9). Every obligation is discharged on the repaired tree (two fix: commits).",
         "design_ref": "DESIGN.md section 4, C01",
         "level_note": E4_NOTE + " Assumes Dimension arithmetic is the exponent-vector group (decided by C02 R02.5).",
     },
     "C02": {
         "engine": "E1+E4",
         "technique": "structural rules on the three interning constructors (key dataflow, CFG dominance of the table store) + abstract interpretation of every Dimension/Prefix/Unit operator against the free-abelian-group specification (log-values for prefixes)",
-        "level_text": "Eleven structural facts (canonical keys, intern protocol, Dimension.define re-keying every interned dimension, no memoised operator keyed by conflated numeric types, identity hashing or hashing over never-reassigned fields, componentwise group operations, renormalisation, no allocation bypass, base-unit keys, change-of-base identity) together imply that interned objects are exactly the elements of a free abelian group, for expression trees of any shape. Each fact is an armed rule over resolved structure; all are discharged.",
+        "level_text": "Eleven structural facts (canonical keys, intern protocol, Dimension.define re-keying every interned dimension, no memoised operator keyed by conflated numeric types, identity hashing or an __eq__/__hash__ that is exactly the interning key over never-reassigned fields, factor order by identity, componentwise group operations, renormalisation, no allocation bypass, base-unit keys, change-of-base identity) together imply that interned objects are exactly the elements of a free abelian group, for expression trees of any shape. Each fact is an armed rule over resolved structure; all are discharged.",
         "design_ref": "DESIGN.md section 4, C02",
         "level_note": E4_NOTE + " Not decided: the 1e-9 numeric bound for mixed-base prefixes and exactness tests on float exponents.",
     },
@@ -57,7 +57,7 @@ CHECKS = {
     "C16": {
         "engine": "E6",
         "technique": "translation validation: the grammar is compiled with Lark as the Makefile does; terminals, rules (up to renaming of generated helper nonterminals), options and the LALR automaton (isomorphism by BFS from the start states) are compared with the tables extracted from _parser.py by an AST literal evaluator",
-        "level_text": "Same terminals, same rules including tree-shaping options, and isomorphic LALR tables run by the same table-driven runtime accept the same language and build the same trees, for every input string and both start symbols; the embedded lexer is shown to consume input only through the scanner built from that terminal table (R16.7), the LALR driver to read actions and gotos from those tables (R16.8), and 191 of the 250 functions of the embedded runtime are AST-identical to the installed Lark's source (R16.9); the 59 that differ between the two Lark versions and the module/class skeleton are compared with the generator's pinned output while the embedded version string is unchanged (R16.10). Complete for the language question given the trusted embedded runtime; no input is parsed.",
+        "level_text": "Same terminals, same rules including tree-shaping options, and isomorphic LALR tables run by the same table-driven runtime accept the same language and build the same trees, for every input string and both start symbols; the embedded lexer is shown to consume input only through the scanner built from that terminal table (R16.7), the LALR driver to read actions and gotos from those tables (R16.8), and 191 of the 250 functions of the embedded runtime are AST-identical to the installed Lark's source (R16.9); the 59 that differ between the two Lark versions and the module/class skeleton are compared with the generator's pinned output while the embedded version string is unchanged (R16.10), and no module assigns into the generated parser module (R16.11). Complete for the language question given the trusted embedded runtime; no input is parsed.",
         "design_ref": "DESIGN.md section 4, C16",
         "level_note": "Trusted: the 59 functions of the embedded Lark 1.1.2 runtime that differ from Lark 1.3.1 (sa/data/lark_runtime_residue.json; no reference copy of 1.1.2 offline), Lark 1.3.1 as grammar compiler and as reference source. Serialisation fields only one version has are skipped and named in the evidence.",
     },
@@ -71,7 +71,7 @@ CHECKS = {
     "C19": {
         "engine": "E1+E2+E5",
         "technique": "interprocedural write-then-raise analysis on statement CFGs of the definition entry points (summaries of may-write-naming / may-raise per callee); dominance of raising guards over registry bindings; constructor early-return rule; creation trace and registries from the declaration evaluator under every entry module; memo-over-registry rule",
-        "level_text": "A failing definition leaves the registries untouched iff no raise is reachable after a naming write on any path through the entry point and its callees; a name is never bound to two objects iff every binding is dominated by a raising test and the shipped tables have no duplicates; a declared name survives an earlier anonymous construction iff the declaring constructor registers late names; a rejected constructor call leaves no half-built or prematurely initialised instance in the intern table (R19.7/R19.8, must-assign analysis on the CFG of __init__); no shipped dimension is declared under two names (R19.9); Dimension.scale is an entry point with summaries computed over the context-pruned reachable set. All decided structurally and, for the shipped configuration, exhaustively; discharged after six fix: commits.",
+        "level_text": "A failing definition leaves the registries untouched iff no raise is reachable after a naming write on any path through the entry point and its callees; a name is never bound to two objects iff every binding is dominated by a raising test and the shipped tables have no duplicates; a declared name survives an earlier anonymous construction iff the declaring constructor registers late names; a rejected constructor call leaves no half-built or prematurely initialised instance in the intern table (R19.7/R19.8, must-assign analysis on the CFG of __init__); no shipped dimension is declared under two names (R19.9); named(name) is the name registry's entry (R19.10); Dimension.scale is an entry point with summaries computed over the context-pruned reachable set. All decided structurally and, for the shipped configuration, exhaustively; discharged after six fix: commits.",
         "design_ref": "DESIGN.md section 4, C19",
         "level_note": "Trusted: mypy call resolution; E5's declaration model. That the intern table keeps an anonymous, fully built instance after a failing definition is accepted (indistinguishable from an earlier anonymous construction); Dimension.scale's translate() guard is infeasible for a fresh unit and is not an entry.",
     },
@@ -85,21 +85,21 @@ CHECKS = {
     "C18": {
         "engine": "E1+E4+E5",
         "technique": "abstract interpretation of LogarithmicUnit.level and Level.quantify to normal forms with ln/exp heads, compared with the logarithmic definition; units-of-measure typing of the log argument; structural rules; declared bases from E5",
-        "level_text": "level() normalises to (k/p)*log_B(val(q)/val(ref)) and quantify() to B**(L*p/k)*ref for symbolic base, prefix, power ratio, reference and units, so the two directions are mutually inverse and the level is increasing for B > 1 (all declared bases are). The log argument is shown dimensionless, the reference unprefixed, k in {1,2} by membership, and Logarithm / LogarithmicUnit are interned under keys that determine their defining arguments exactly (R18.7); membership in ROOT_POWER_DIMENSIONS cannot go stale (R18.8) and the table has no entry written twice (R18.9).",
+        "level_text": "level() normalises to (k/p)*log_B(val(q)/val(ref)) and quantify() to B**(L*p/k)*ref for symbolic base, prefix, power ratio, reference and units, so the two directions are mutually inverse and the level is increasing for B > 1 (all declared bases are). The log argument is shown dimensionless, the reference unprefixed, k in {1,2} by membership, and Logarithm / LogarithmicUnit are interned under keys that determine their defining arguments exactly (R18.7); membership in ROOT_POWER_DIMENSIONS cannot go stale (R18.8) and the table has no entry written twice (R18.9); a pickle hook on Logarithm/LogarithmicUnit covers its interning key (R18.10).",
         "design_ref": "DESIGN.md section 4, C18",
         "level_note": E4_NOTE + " Axiom: in_unit value-preserving (C04). Not decided: floating-point rounding.",
     },
     "C06": {
         "engine": "E1+E4",
         "technique": "abstract interpretation: physical-value normal forms of + - * / ** and of the magnitudes compared in __eq__/__lt__ (under their path conditions), relative to the in_unit axiom; layering rule on prefix arithmetic",
-        "level_text": "If every operator's result has the physical value of the operation applied to the operands' physical values, re-expressing an operand cannot change the result. Decided for all operands at once as identities of normal forms; the comparison operators are shown to compare the operands' own physical values in one unit and to return exactly that comparison on every path (no constant shortcut, no tolerance); value fields of the shared value objects are assigned only by their constructors (R06.6); Quantity.__init__ stores what it is given (R03.7). number/quantity (__rtruediv__) is a known finding, hence 'other'.",
+        "level_text": "If every operator's result has the physical value of the operation applied to the operands' physical values, re-expressing an operand cannot change the result. Decided for all operands at once as identities of normal forms; the comparison operators are shown to compare the operands' own physical values in one unit and to return exactly that comparison on every path (no constant shortcut, no tolerance); value fields of the shared value objects are assigned only by their constructors (R06.6); Quantity.__init__ stores what it is given (R03.7), the tables are keyed by unprefixed units (R05.1) and the planner's exchanged steps are turned round (R05.9). number/quantity (__rtruediv__) is a known finding, hence 'other'.",
         "design_ref": "DESIGN.md section 4, C06",
         "level_note": E4_NOTE + " Proved relative to the in_unit axiom (C04). Not decided: rounding ties.",
     },
     "C12": {
         "engine": "E1+E4+E7",
         "technique": "order-domain evaluation: the overlap predicate is extracted from the AST and evaluated on every weak ordering of the four interval bounds; dispatch matrix of the three __eq__ methods resolved through their isinstance arms and Python's reflected fallback; field-normalisation contradiction rule for __hash__; operator-consistency rule on ordering methods; comparison normal forms shared with C06",
-        "level_text": "Symmetry of Measurement equality is decided exhaustively over all 26 admissible weak orders (finite and complete: the predicate touches its arguments only through comparisons); for each of the 9 ordered type pairs both directions reduce to the same predicate on the same normalised operands; ordering methods use their own operator on every path; == and < compare physical values and return that exact comparison (C06); a subclass overriding a comparison must treat both operands alike (R12.7); an uncertainty is never converted as a point on the scale (R12.8). Quantity.__hash__ hashes fields that __eq__ normalises - a genuine defect pinned by the suite, recorded as a known finding, hence 'other'.",
+        "level_text": "Symmetry of Measurement equality is decided exhaustively over all 26 admissible weak orders (finite and complete: the predicate touches its arguments only through comparisons); for each of the 9 ordered type pairs both directions reduce to the same predicate on the same normalised operands; ordering methods use their own operator on every path; == and < compare physical values and return that exact comparison (C06); a subclass overriding a comparison must treat both operands alike (R12.7); an uncertainty is never converted as a point on the scale (R12.8); value objects carry no cached state such as a memoised hash (R06.6). Quantity.__hash__ hashes fields that __eq__ normalises - a genuine defect pinned by the suite, recorded as a known finding, hence 'other'.",
         "design_ref": "DESIGN.md section 4, C12",
         "level_note": E4_NOTE + " Not decided: trichotomy / sorted() numerically at floating-point ties; overlap equality is not transitive by design.",
     },
@@ -113,7 +113,7 @@ CHECKS = {
     "C15": {
         "engine": "E1+E6+E5",
         "technique": "structural agreement rules between sibling codecs (__getnewargs_ex__ vs __new__ key parameters; __json__ keys vs __from_json__ reads; tag dispatch table; Decimal writer/reader pairing; pickle hook inventory) + the formatter-language inclusion of C13 at the serialisation sites",
-        "level_text": "Writer and reader of each representation are compared as tables extracted from the AST: keys, tags, positions and type conversions must agree, nothing may route a Quantity's unit through text for pickle/copy, the Dimension/Prefix decoders must rebuild from the encoded structural key on every path (R15.7), and no encoder/decoder may be memoised over values whose equality ignores the magnitude type or over the registries (R15.9, R15.10). The stored unit text is str(unit); its language is checked against the parser (three known findings inherited from C13 R13.3 and seven from the symbol-table rule R15.8 = C13 R13.2: a quantity in centi-days decodes as candela; hence 'other').",
+        "level_text": "Writer and reader of each representation are compared as tables extracted from the AST: keys, tags, positions and type conversions must agree, nothing may route a Quantity's unit through text for pickle/copy, the Dimension/Prefix decoders must rebuild from the encoded structural key on every path (R15.7), and no encoder/decoder may be memoised over values whose equality ignores the magnitude type or over the registries (R15.9, R15.10); codecs_installed sets and restores each implicit json hook (R15.11); every interned class with a pickle hook passes all of its interning arguments (R15.1). The stored unit text is str(unit); its language is checked against the parser (three known findings inherited from C13 R13.3 and seven from the symbol-table rule R15.8 = C13 R13.2: a quantity in centi-days decodes as candela; hence 'other').",
         "design_ref": "DESIGN.md section 4, C15",
         "level_note": "Trusted: CPython's pickle/copy/json protocols; E5 tables (every base unit is named). Not decided: equality of decoded float magnitudes; third-party serializers.",
     },
@@ -148,7 +148,7 @@ CHECKS = {
     "C08": {
         "engine": "E1+E2",
         "technique": "effect analysis: transitive (context-pruned) read sets of memoised functions vs writers of module-level tables and registries, with CFG check that each writer invalidates after writing; who-may-write; alias-taint analysis for in-place mutation of memoised results; determinism lint",
-        "level_text": "History independence reduces to: every memo is over immutable inputs or is invalidated by every writer of what it reads; nothing but equate/translate writes the tables; queries keep no other state; cached objects are never mutated in place; no address-dependent iteration. All rules are armed over resolved structure and discharged after one fix: commit (cache invalidation); memo keys must not conflate numeric types (R08.6).",
+        "level_text": "History independence reduces to: every memo is over immutable inputs or is invalidated by every writer of what it reads; nothing but equate/translate writes the tables; queries keep no other state; cached objects are never mutated in place; no address-dependent iteration. All rules are armed over resolved structure and discharged after one fix: commit (cache invalidation); memo keys must not conflate numeric types (R08.6); nothing changes the decimal context (R08.7) and in_unit is convert(self, unit) with nothing around it (R05.7).",
         "design_ref": "DESIGN.md section 4, C08",
         "level_note": "Trusted: mypy call resolution, functools.lru_cache semantics. Intern tables (_known) are exempt by kind (append-only, idempotent). Not decided: bit-identical floating-point results across processes.",
     },
